@@ -43,6 +43,13 @@ struct SchedState {
     preempt: Vec<u32>,
     shutdown: bool,
     round: usize,
+    /// kernel thread ids of the simulated threads (for the blocked-thread watchdog)
+    tids: Vec<i64>,
+    /// threads found blocked in a synchronisation primitive the simulator does not own
+    blocked: Vec<bool>,
+    /// incremented at every scheduling point and job completion
+    progress: u64,
+    foreign_blocks: u64,
 }
 
 struct Sched {
@@ -63,13 +70,24 @@ fn sched_hook() {
         None => return,
     };
     let mut st = s.m.lock().unwrap();
+    st.progress += 1;
+    if st.running != Some(me) {
+        // this thread had been found blocked in a primitive the simulator does not own and
+        // another one was released meanwhile: it is runnable again, wait for its turn
+        st.blocked[me] = false;
+        s.cv.notify_all();
+        while st.running != Some(me) {
+            st = s.cv.wait(st).unwrap();
+        }
+        return;
+    }
     if st.runnable.len() <= 1 || st.switch_permille == 0 {
         return;
     }
     if st.rng.below(1000) >= st.switch_permille as u64 {
         return;
     }
-    let others: Vec<usize> = st.runnable.iter().cloned().filter(|&t| t != me).collect();
+    let others: Vec<usize> = st.runnable.iter().cloned().filter(|&t| t != me && !st.blocked[t]).collect();
     if others.is_empty() {
         return;
     }
@@ -82,6 +100,27 @@ fn sched_hook() {
     s.cv.notify_all();
     while st.running != Some(me) {
         st = s.cv.wait(st).unwrap();
+    }
+}
+
+/// 'R', 'S', 'D', ... of a kernel thread of this process (raw syscalls: no override involved)
+fn thread_state(tid: i64) -> u8 {
+    let path = format!("/proc/self/task/{tid}/stat\0");
+    let fd = unsafe { libc::syscall(libc::SYS_openat, libc::AT_FDCWD as libc::c_long, path.as_ptr(), libc::O_RDONLY as libc::c_long, 0 as libc::c_long) };
+    if fd < 0 {
+        return b'?';
+    }
+    let mut buf = [0u8; 512];
+    let n = unsafe { libc::syscall(libc::SYS_read, fd, buf.as_mut_ptr(), buf.len()) };
+    unsafe { libc::syscall(libc::SYS_close, fd) };
+    if n <= 0 {
+        return b'?';
+    }
+    let s = &buf[..n as usize];
+    // pid (comm) state ...
+    match s.iter().rposition(|&b| b == b')') {
+        Some(i) if i + 2 < s.len() => s[i + 2],
+        _ => b'?',
     }
 }
 
@@ -113,6 +152,10 @@ fn run_program(p: &Program) -> (String, Vec<String>, Vec<String>, String) {
 
 fn sim_thread(t: usize, s: Arc<Sched>, keep_log: bool) {
     ME.with(|m| m.set(t));
+    {
+        let tid = unsafe { libc::syscall(libc::SYS_gettid) } as i64;
+        s.m.lock().unwrap().tids[t] = tid;
+    }
     loop {
         let (round, job, program) = {
             let mut st = s.m.lock().unwrap();
@@ -158,18 +201,25 @@ fn sim_thread(t: usize, s: Arc<Sched>, keep_log: bool) {
             preemptions: st.preempt[t],
         };
         st.results.push(res);
+        st.progress += 1;
         st.ctxs[t] = 0;
         st.runnable.retain(|&x| x != t);
-        if st.runnable.is_empty() {
-            st.running = None;
-            simlibc::set_current(std::ptr::null_mut());
-        } else {
-            let k = st.runnable.len() as u64;
-            let i = st.rng.below(k) as usize;
-            let n = st.runnable[i];
-            st.running = Some(n);
-            simlibc::set_current(st.ctxs[n] as *mut Ctx);
-            st.trace.push(format!("{t}.>{n}"));
+        if st.running == Some(t) {
+            if st.runnable.is_empty() {
+                st.running = None;
+                simlibc::set_current(std::ptr::null_mut());
+            } else {
+                // a thread blocked on this job may be runnable again now: all are candidates
+                for b in st.blocked.iter_mut() {
+                    *b = false;
+                }
+                let k = st.runnable.len() as u64;
+                let i = st.rng.below(k) as usize;
+                let n = st.runnable[i];
+                st.running = Some(n);
+                simlibc::set_current(st.ctxs[n] as *mut Ctx);
+                st.trace.push(format!("{t}.>{n}"));
+            }
         }
         drop(ctx);
         s.cv.notify_all();
@@ -178,6 +228,7 @@ fn sim_thread(t: usize, s: Arc<Sched>, keep_log: bool) {
 
 pub fn exec_jobs(sc: &C12Scenario, keep_log: bool) -> JobsResult {
     install_panic_hook();
+    simlibc::set_bypass(true);
     let stub = stub_dir();
     let nthreads = sc.threads.len();
     let sched = Arc::new(Sched {
@@ -195,6 +246,10 @@ pub fn exec_jobs(sc: &C12Scenario, keep_log: bool) -> JobsResult {
             preempt: vec![0; nthreads],
             shutdown: false,
             round: 0,
+            tids: vec![0; nthreads],
+            blocked: vec![false; nthreads],
+            progress: 0,
+            foreign_blocks: 0,
         }),
         cv: Condvar::new(),
     });
@@ -241,8 +296,60 @@ pub fn exec_jobs(sc: &C12Scenario, keep_log: bool) -> JobsResult {
         st.trace.push(format!("r{ri}:{first}"));
         simlibc::set_current(st.ctxs[first] as *mut Ctx);
         sched.cv.notify_all();
+        // Wait for the round; meanwhile watch for the running thread being blocked in a
+        // synchronisation primitive the simulator does not own (the library has none today; a
+        // change that adds a lock or a condition variable must not hang the simulation): a
+        // thread that sleeps in the kernel while it is the one released cannot reach a
+        // scheduling point, so another runnable thread is released in its place.
+        let mut last_progress = st.progress;
+        let mut sleeping_polls = 0;
         while st.running.is_some() {
-            st = sched.cv.wait(st).unwrap();
+            let (g, to) = sched.cv.wait_timeout(st, std::time::Duration::from_millis(10)).unwrap();
+            st = g;
+            if !to.timed_out() {
+                continue;
+            }
+            if st.progress != last_progress {
+                last_progress = st.progress;
+                sleeping_polls = 0;
+                continue;
+            }
+            if let Some(r) = st.running {
+                let state = thread_state(st.tids[r]);
+                if state == b'S' {
+                    sleeping_polls += 1;
+                } else {
+                    sleeping_polls = 0;
+                }
+                if sleeping_polls >= 5 {
+                    sleeping_polls = 0;
+                    st.blocked[r] = true;
+                    st.foreign_blocks += 1;
+                    let cands: Vec<usize> = st.runnable.iter().cloned().filter(|&t| !st.blocked[t]).collect();
+                    if cands.is_empty() {
+                        // every job of the round is blocked: a deadlock of the code under test
+                        st.trace.push("deadlock".into());
+                        st.shutdown = true;
+                        let results = std::mem::take(&mut st.results);
+                        let trace = st.trace.clone();
+                        drop(st);
+                        simlibc::set_current(std::ptr::null_mut());
+                        let mut out = JobsResult { jobs: results, interleaving_digest: digest_strs(&trace), switches: 0 };
+                        for job in &round.jobs {
+                            if !out.jobs.iter().any(|j| j.round == ri && j.thread == job.thread) {
+                                out.jobs.push(JobResult { round: ri, thread: job.thread, program: job.program, measured: job.measured, verdict: "abort:deadlock".into(), ..Default::default() });
+                            }
+                        }
+                        return out;
+                    }
+                    let i = st.rng.below(cands.len() as u64) as usize;
+                    let n = cands[i];
+                    st.running = Some(n);
+                    simlibc::set_current(st.ctxs[n] as *mut Ctx);
+                    st.trace.push(format!("{r}!blocked>{n}"));
+                    sched.cv.notify_all();
+                }
+            }
         }
     }
     let (results, trace, switches) = {
@@ -269,6 +376,7 @@ fn crash_record(ctx: &mut Ctx) -> String {
         calls: ctx.seq,
         log_digest: digest_strs(&ctx.log),
         log: ctx.log.clone(),
+        log_seq: ctx.log_seq.clone(),
         clock_calls: ctx.clock_calls,
         pid_calls: ctx.pid_calls,
         cwd_calls: ctx.cwd_calls,
@@ -317,6 +425,7 @@ pub fn exec_step(spec: &StepSpec) -> StepResult {
                 calls: ctx.seq,
                 log_digest: digest_strs(&ctx.log),
                 log: if spec.keep_log { ctx.log.clone() } else { vec![] },
+                log_seq: if spec.keep_log { ctx.log_seq.clone() } else { vec![] },
                 clock_calls: ctx.clock_calls,
                 pid_calls: ctx.pid_calls,
                 cwd_calls: ctx.cwd_calls,
